@@ -12,6 +12,7 @@ import (
 	"time"
 
 	atomicx "github.com/pion/ice/v4/internal/atomic"
+	"github.com/pion/ice/v4/internal/verifhook"
 )
 
 // ErrClosed indicates that the loop has been stopped.
@@ -49,16 +50,19 @@ func New(onClose func()) *Loop {
 // runLoop handles registered tasks and agent close.
 func (l *Loop) runLoop(onClose func()) {
 	defer func() {
+		verifhook.Yield("taskloop.runLoop.beforeOnClose")
 		onClose()
 		close(l.taskLoopDone)
 	}()
 
 	for {
+		verifhook.Yield("taskloop.runLoop.top")
 		select {
 		case <-l.done:
 			return
 		case t := <-l.tasks:
 			t.fn(l)
+			verifhook.Yield("taskloop.runLoop.afterTask")
 			close(t.done)
 		}
 	}
@@ -74,6 +78,7 @@ func (l *Loop) Close() {
 // It calls preStop after the loop is marked closed and before waiting for the
 // current task to return.
 func (l *Loop) CloseWithPreStop(preStop func()) {
+	verifhook.Yield("taskloop.Close.entry")
 	l.closeOnce.Do(func() {
 		l.err.Store(ErrClosed)
 
@@ -82,22 +87,26 @@ func (l *Loop) CloseWithPreStop(preStop func()) {
 			preStop()
 		}
 	})
+	verifhook.Yield("taskloop.Close.beforeWait")
 	<-l.taskLoopDone
 }
 
 // Run serially executes the submitted callback.
 // Blocking tasks must be cancelable by context.
 func (l *Loop) Run(ctx context.Context, t func(context.Context)) error {
+	verifhook.Yield("taskloop.Run.entry")
 	if err := l.Err(); err != nil {
 		return err
 	}
 	done := make(chan struct{})
+	verifhook.Yield("taskloop.Run.beforeSelect")
 	select {
 	case <-ctx.Done():
 		return ctx.Err()
 	case <-l.done:
 		return ErrClosed
 	case l.tasks <- task{t, done}:
+		verifhook.Yield("taskloop.Run.afterHandoff")
 		<-done
 
 		return nil
